@@ -73,10 +73,16 @@ impl FromStr for Pt {
     }
 }
 
+/// an operator that receives this value panics (a user-defined operator may do that)
+pub const BOOM: u32 = 0xb000_0b01;
+
 #[inline]
 fn operand(t: &Pt) {
     if t.id == 0 && t.h == HOLE {
         HOLE_REACHED_OP.with(|c| c.set(c.get() + 1));
+    }
+    if t.h == BOOM {
+        panic!("EXPECTED-PANIC a user-defined operator panics on this operand");
     }
 }
 
